@@ -117,6 +117,7 @@ func (self *_parser) parseStatement() ast.Statement {
 		for _, value := range self.scope.labels {
 			if label == value {
 				self.error(identifier.Idx0(), "Label '%s' already exists", label)
+				break // one report per statement, not one per enclosing label of that name
 			}
 		}
 		var labelComments []*ast.Comment
